@@ -322,6 +322,61 @@ func init() {
 			}
 			c.Count("recorded", text)
 		}
+		// where a declaration is recorded does not depend on what else carries the same name, nor on how the text
+		// is spread over files
+		dump := func(d *dictionary.Dictionary, err error) string {
+			if err != nil {
+				return "error: " + err.Error()
+			}
+			got := ""
+			for _, a := range d.Attributes {
+				got += fmt.Sprintf("%s %v %v;", a.Name, a.OID, a.Type)
+			}
+			for _, v := range d.Values {
+				got += fmt.Sprintf("%s.%s=%d;", v.Attribute, v.Name, v.Number)
+			}
+			for _, v := range d.Vendors {
+				got += fmt.Sprintf("[%s %d:", v.Name, v.Number)
+				for _, a := range v.Attributes {
+					got += fmt.Sprintf("%s %v %v;", a.Name, a.OID, a.Type)
+				}
+				for _, x := range v.Values {
+					got += fmt.Sprintf("%s.%s=%d;", x.Attribute, x.Name, x.Number)
+				}
+				got += "]"
+			}
+			return got
+		}
+		for _, pl := range []struct {
+			files map[string]string
+			ign   bool
+			want  string
+		}{
+			// a VALUE inside a vendor block belongs to the vendor, also before its ATTRIBUTE line and also when the
+			// top level has an attribute of that name
+			{map[string]string{"d": "ATTRIBUTE X 1 integer\nVENDOR V 9\nBEGIN-VENDOR V\nVALUE X on 1\nATTRIBUTE X 2 integer\nEND-VENDOR V\n"}, false,
+				"X 1 integer;[V 9:X 2 integer;X.on=1;]"},
+			{map[string]string{"d": "ATTRIBUTE X 1 integer\nVENDOR V 9\nBEGIN-VENDOR V\nATTRIBUTE X 2 integer\nVALUE X on 1\nEND-VENDOR V\nVALUE X off 0\n"}, false,
+				"X 1 integer;X.off=0;[V 9:X 2 integer;X.on=1;]"},
+			{map[string]string{"d": "VENDOR V 9\nBEGIN-VENDOR V\nVALUE Y on 1\nEND-VENDOR V\nATTRIBUTE Y 3 integer\n"}, false,
+				"Y 3 integer;[V 9:Y.on=1;]"},
+			// one file included twice (a diamond, and twice in a row) is not a cycle
+			{map[string]string{"d": "$INCLUDE a\n$INCLUDE b\n", "a": "ATTRIBUTE A 1 string\n$INCLUDE common\n", "b": "ATTRIBUTE B 2 string\n$INCLUDE common\n", "common": "ATTRIBUTE C 3 integer\n"}, true,
+				"A 1 string;C 3 integer;B 2 string;"},
+			{map[string]string{"d": "$INCLUDE common\n$INCLUDE common\nATTRIBUTE A 1 string\n", "common": "ATTRIBUTE C 3 integer\n"}, true,
+				"C 3 integer;A 1 string;"},
+			{map[string]string{"d": "$INCLUDE a\n$INCLUDE a\n", "a": "$INCLUDE common\n", "common": "VENDOR V 9\n"}, true, "error"},
+		} {
+			files := map[string]memEntry{}
+			for n, t := range pl.files {
+				files[n] = memEntry{n, t}
+			}
+			got := dump((&dictionary.Parser{Opener: &memOpener{files: files, limit: 8}, IgnoreIdenticalAttributes: pl.ign}).ParseFile("d"))
+			if got != pl.want && !(pl.want == "error" && strings.HasPrefix(got, "error: ") && !strings.Contains(got, "recursive")) {
+				c.Fail("spec", "Parser.ParseFile", "placement", fmt.Sprint(pl.files), got, pl.want, "declarations inside a vendor block are attached to that vendor; a file included twice without a cycle is read twice, not refused as recursive")
+			}
+			c.Count("placement", fmt.Sprint(pl.files))
+		}
 		// duplicate names are per scope (top level, or one vendor), decided by the statement itself
 		for _, du := range []struct {
 			text string
